@@ -150,3 +150,36 @@ def apply_fields(unit_json, fmap):
             for f in v.get("fields", []):
                 if (owner, f.get("name")) in fmap:
                     f["name"] = fmap[(owner, f["name"])]
+
+
+def type_moves(units):
+    """{new ADT path: recorded ADT path} for types that moved to another module (same name, same variants and field names / types)."""
+    if not os.path.exists(TABLE):
+        return {}, []
+    with open(TABLE) as fh:
+        table = json.load(fh)
+    out, notes = {}, []
+
+    def shape(a):
+        # field / variant names may have been renamed in the same change: compare the types only
+        return (a.get("kind"), tuple(tuple(re.sub(r"(?:[A-Za-z_][A-Za-z0-9_]*::)+", "", f["ty"]) for f in v["fields"]) for v in a["variants"]))
+    for u in units:
+        key = "%s-%s" % (u["crate"], u["crate_type"])
+        rec = table.get(key)
+        if not rec:
+            continue
+        cur = adts_of(u)
+        missing = [p for p in rec if p not in cur]
+        fresh = [p for p in cur if p not in rec]
+        for m in missing:
+            cands = [f for f in fresh if f.rsplit("::", 1)[-1] == m.rsplit("::", 1)[-1] and shape(cur[f]) == shape(rec[m]) and f.split("::", 1)[0] == m.split("::", 1)[0]]
+            if len(cands) == 1 and cands[0] not in out:
+                out[cands[0]] = m
+                notes.append("type `%s` is treated as the moved `%s`" % (cands[0], m))
+    return out, notes
+
+
+def apply_paths(text, pmap):
+    for new, old in sorted(pmap.items(), key=lambda kv: -len(kv[0])):
+        text = re.sub(r"(?<![A-Za-z0-9_:])" + re.escape(new) + r"(?![A-Za-z0-9_])", old, text)
+    return text
